@@ -208,6 +208,15 @@ pub fn spec(op: Op, e: u32, d: u32) -> WorldSpec {
     match &op {
         Op::Merge(n) | Op::Concat(n) | Op::Combine(n) if *n >= 2 => cfg.nested_events = true,
         Op::Flatten | Op::Net(_) => cfg.nested_events = true,
+        // single-upstream worlds: the only possible nested upstream event is a re-entrant one
+        Op::Map | Op::Filter(_) | Op::Scan(_) | Op::Take(_) | Op::Skip(_) | Op::Comp(..) => {
+            cfg.nested_events = true;
+            cfg.self_reentrancy = true;
+        },
+        Op::Merge(1) | Op::Concat(1) | Op::Combine(1) => {
+            cfg.nested_events = true;
+            cfg.self_reentrancy = true;
+        },
         _ => {},
     }
     match &op {
